@@ -7,6 +7,7 @@ import (
 	"path/filepath"
 	"sort"
 	"strings"
+	"sync"
 	"testing"
 	"unicode/utf8"
 
@@ -338,4 +339,52 @@ func TestC09Dictionary(t *testing.T) {
 			rec.Case(true, specImage(s), func() any { return json.RawMessage(specImage(s)) }, append(labels, "written", "dictionary")...)
 		}
 	}
+}
+
+// TestC09Concurrent: the round trip must also hold for every writer when several
+// goroutines write different Specs at the same time (each into its own
+// directory through its own cache: nothing is shared but the library's
+// package-level state). Race-detector build.
+func TestC09Concurrent(t *testing.T) {
+	rec := stats.For("C09", "concurrent")
+	base := t.TempDir()
+	caseSeq := 0
+	rapid.Check(t, func(t *rapid.T) {
+		caseSeq++
+		n := rapid.IntRange(2, 6).Draw(t, "writers")
+		rounds := rapid.IntRange(3, 20).Draw(t, "rounds")
+		var specsToWrite []*specs.Spec
+		for i := 0; i < n; i++ {
+			specsToWrite = append(specsToWrite, gen.Spec(t, fmt.Sprintf("w%d", i), gen.SpecOpts{Edit: gen.EditOpts{Hostile: rapid.Bool().Draw(t, fmt.Sprintf("hostile%d", i)), MaxPer: 2}, MaxDevices: 2}))
+		}
+		msgs := make([]string, n)
+		var wg sync.WaitGroup
+		for i := 0; i < n; i++ {
+			wg.Add(1)
+			go func(i int) {
+				defer wg.Done()
+				env := &c09Env{base: filepath.Join(base, fmt.Sprintf("c%d-w%d", caseSeq, i))}
+				for r := 0; r < rounds && msgs[i] == ""; r++ {
+					msg, rejected := env.check(specsToWrite[i])
+					if rejected {
+						return
+					}
+					msgs[i] = msg
+				}
+			}(i)
+		}
+		wg.Wait()
+		for i, msg := range msgs {
+			if msg != "" {
+				t.Fatalf("C09 violated with %d concurrent writers (writer %d): %s\nSpec: %s", n, i, msg, clip(specImage(specsToWrite[i]), 3000))
+			}
+		}
+		_ = os.RemoveAll(base)
+		_ = os.MkdirAll(base, 0o755)
+		var imgs []string
+		for _, s := range specsToWrite {
+			imgs = append(imgs, specImage(s))
+		}
+		rec.Case(true, strings.Join(imgs, "\n"), func() any { return map[string]any{"writers": n, "rounds": rounds, "specs": imgs} }, "concurrent-writers")
+	})
 }
